@@ -143,21 +143,23 @@ def run_item(item, rec):
 
                     def harness(ctx, case=case, order=order):
                         so = SymOrder() if order == "sym" else order
-                        out = build_and_contract(inputs, output, size, ssa, impl, pe, so, prio, arrays)
-                        out = symarr.as_obj_array(out)
-                        if out.shape != want_shape:
-                            bad = True
-                        else:
-                            bad = symarr.diff_formula(out, ref)
+                        out = None
 
                         def viol(m, so=so):
-                            d = dict(case=case, got_shape=list(out.shape), want_shape=list(want_shape))
+                            d = dict(case=case, got_shape=(list(out.shape) if out is not None else None), want_shape=list(want_shape))
                             d["arrays"] = [a.tolist() for a in symarr.model_arrays(m, arrays)]
                             if isinstance(so, SymOrder):
                                 d["order_keys"] = [[sorted(nd), symx.eval_model(m, k)] for nd, k in so.keys.items()]
                             d["signature"] = ["C01", list(inputs), output, impl, pe, str(order), str(prio)]
                             return d
 
+                        with rec.guarded(ctx, "value==einsum", viol):
+                            out = build_and_contract(inputs, output, size, ssa, impl, pe, so, prio, arrays)
+                        out = symarr.as_obj_array(out)
+                        if out.shape != want_shape:
+                            bad = True
+                        else:
+                            bad = symarr.diff_formula(out, ref)
                         rec.refute(ctx, bad, "value==einsum", viol)
                         if isinstance(so, SymOrder):
                             return len(so.keys)
@@ -184,14 +186,16 @@ def run_item(item, rec):
                             if prio is not None:
                                 tree.sort_contraction_indices(priority=prio)
                             so = SymOrder() if order == "sym" else order
-                            out = symarr.as_obj_array(tree.contract(arrays, order=so, prefer_einsum=pe, implementation=impl))
                             done.append([impl, pe, str(order), prio])
-                            bad = True if out.shape != want_shape else symarr.diff_formula(out, ref)
                             seq = [list(x) for x in done]
 
                             def viol(m, seq=seq):
                                 return dict(case=dict(inputs=list(inputs), output=output, size=size, ssa=[list(p) for p in ssa], shared_tree_sequence=seq),
                                             arrays=[a.tolist() for a in symarr.model_arrays(m, arrays)], signature=["C01-shared", list(inputs), output, str(seq[-2:])])
+
+                            with rec.guarded(ctx, "value==einsum (same tree object, successive option sets)", viol):
+                                out = symarr.as_obj_array(tree.contract(arrays, order=so, prefer_einsum=pe, implementation=impl))
+                            bad = True if out.shape != want_shape else symarr.diff_formula(out, ref)
 
                             rec.refute(ctx, bad, "value==einsum (same tree object, successive option sets)", viol, reach_probe=False)
                             if isinstance(so, SymOrder):
